@@ -33,7 +33,7 @@ def gen(rng, tier):
         focus["fix"] = True
     if rng.random() < 0.5:
         focus["res_abs"] = True
-    spec = C.maybe_org_edit(rng, C.maybe_history(rng, C.forward_spec(rng, tier, focus), 0.3, reload_prob=0.3), 0.35)
+    spec = C.maybe_from_json(rng, C.maybe_org_edit(rng, C.maybe_history(rng, C.forward_spec(rng, tier, focus), 0.3, reload_prob=0.3), 0.35))
     if rng.random() < 0.1:
         spec["cfg"]["unit_time"] = rng.choice([2, 3])  # the clock advances by 2 or 3 per step; absence lists name times
     return spec
